@@ -112,6 +112,56 @@ theorem live_registry_table_symbol_wins [Mul K] (pre : PrefixesN K) (dflt t : Di
     (step Generated.C14.regCfg pre dflt (run Generated.C14.regCfg pre dflt (fresh t) ops).1 (.look s)).2 = .entry (some e) :=
   table_symbol_wins_after_any_history live_registry_forgets_on_every_edit pre dflt t ops s e hc
 
+/-! ### the string route `Unit(str, registry=reg)` with the string cache in front of the look-up -/
+
+/-- **Unit strings are read history-independently, cache included.**  When edits forget the
+    written-back entries and empty the string cache (`cfg.sound`, `cc.sound`), `Unit(name, registry)`
+    and every other operation answer, after ANY history, as the specification does in which
+    `Unit(name)` is built by a fresh registry holding the user's table: a cached object is never
+    stale, an alias is read as its symbol, a table symbol wins over a prefix split. -/
+theorem unit_strings_are_history_independent [Mul K] {cfg : Cfg} {cc : CacheCfg} (hs : cfg.sound = true)
+    (hcs : cc.sound = true) (rt : Route K) (dflt t : Dict (Entry K)) (ops : List (OpS K)) :
+    (runS cfg cc rt dflt (freshS t) ops).2 = (absRunS rt dflt t.get? ops).2 :=
+  (runS_sim hs hcs rt dflt ops (freshS t) t.get? (freshS_inv rt t)).2
+
+/-- a string whose symbol the user's table holds denotes the user's entry, cached or not -/
+theorem unit_string_of_table_symbol [Mul K] {cfg : Cfg} {cc : CacheCfg} (hs : cfg.sound = true)
+    (hcs : cc.sound = true) (rt : Route K) (dflt t : Dict (Entry K)) (ops : List (OpS K)) (name s : Name) (e : Entry K)
+    (hn : name ≠ 0) (hsym : rt.symbolOf name = some s) (hc : (absRunS rt dflt t.get? ops).1 s = some e) :
+    (stepS cfg cc rt dflt (runS cfg cc rt dflt (freshS t) ops).1 (.unit name)).2 = .unit (some (.sym s e)) := by
+  have h := (runS_sim hs hcs rt dflt ops (freshS t) t.get? (freshS_inv rt t)).1
+  rw [(stepS_sim hs hcs rt dflt _ _ h (.unit name)).2]
+  simp [absOutS, freshUnit, hn, hsym, lookupF, hc]
+
+/-- the live registry empties its string cache on every successful edit (probed on this run) -/
+theorem live_registry_clears_cache_on_every_edit : Generated.C14.regCacheCfg.sound = true := by decide
+
+theorem live_unit_strings_are_history_independent [Mul K] (rt : Route K) (dflt t : Dict (Entry K))
+    (ops : List (OpS K)) :
+    (runS Generated.C14.regCfg Generated.C14.regCacheCfg rt dflt (freshS t) ops).2 = (absRunS rt dflt t.get? ops).2 :=
+  unit_strings_are_history_independent live_registry_forgets_on_every_edit live_registry_clears_cache_on_every_edit
+    rt dflt t ops
+
+/-- the fresh construction of the specification is the string route of `UnytModel/Names.lean`
+    (`stringEntry`, the subject of the whole-table obligations) on the same table -/
+theorem fresh_unit_is_string_entry [Mul K] [OfNat K 0] [OfNat K 1] (c : Ctx K) (name : Name) :
+    (freshUnit ⟨c.globals, c.inv, c.rewritten, c.pre⟩ c.lut.get? name).map
+        (fun u => match u with | .one => Names.oneEntry | .sym _ e => e)
+      = Names.stringEntry c name := by
+  unfold freshUnit Names.stringEntry Route.symbolOf
+  by_cases h0 : name = 0
+  · subst h0; simp [Nat.beq]
+  · have hb : Nat.beq name 0 = false := by
+      cases hbq : Nat.beq name 0
+      · rfl
+      · exact absurd (Nat.eq_of_beq_eq_true hbq) h0
+    simp only [h0, hb, if_false, Bool.false_eq_true, Name.force_eq]
+    cases nameToSymbol c.globals c.inv c.rewritten (parserRewrite name) with
+    | none => rfl
+    | some s =>
+      simp only [history_lookup_is_names_lookup]
+      cases lookupF c.pre c.lut.get? s <;> rfl
+
 /-! ### the hypothesis `cfg.sound` is needed: a registry whose `add` keeps the written-back entries
     when it overwrites one loses the user's symbol at the next edit -/
 
